@@ -940,8 +940,15 @@ def C19(tier, seed):
         mc_stats.append({"cfg": "MCFlwF_c.cfg", "states": rc["states"], "transitions": rc["transitions"], "wall_s": rc["wall_s"]})
         states += rc["states"]
         transitions += rc["transitions"]
+        rage = C.run_tlc("MCFlwF.tla", os.path.join(C.SPEC, "MCFlwF_a.cfg"), os.path.join(wd, "mc-flwf-a"), workers=6, timeout=3000)
+        if rage["violated"] or rage["deadlock"]:
+            raise C.ToolError(f"FlwF/MCFlwF_a.cfg violates {rage['violated']}")
+        mc_stats.append({"cfg": "MCFlwF_a.cfg", "states": rage["states"], "transitions": rage["transitions"], "wall_s": rage["wall_s"]})
+        states += rage["states"]
+        transitions += rage["transitions"]
         C.log(f"[C19] TLC MCFlwF_c.cfg: {rc['states']} distinct states; the same with synchronous cleanup (remove / compress; "
-              f"failures at fs:remove, gz_create, gz_copy, gz_finish, remove_orig): additionally TwinsOnlyUnfinished")
+              f"failures at fs:remove, gz_create, gz_copy, gz_finish, remove_orig): additionally TwinsOnlyUnfinished; "
+              f"MCFlwF_a.cfg: {rage['states']} distinct states with the age criterion (clock steps)")
         rmut = C.run_tlc("MCFlwF.tla", os.path.join(C.SPEC, "MCFlwF_mut.cfg"), os.path.join(wd, "mc-flwf-mut"), workers=2, timeout=600)
         if "C19_OnlyOwnFailureMissing" not in (rmut["violated"] or []):
             raise C.ToolError("FlwF: the variant that drops the record after a failed rotation must violate C19_OnlyOwnFailureMissing")
